@@ -252,6 +252,14 @@ def cut_loops_in_fn(src, fname, specs):
         mods = ", ".join("&mut " + m for m in spec.get("modifies_args", spec.get("modifies", [])))
         ctx_sep = (", " + ctx) if ctx else ""
         mods_sep = (", " + mods) if mods else ""
+        # `break` inside the body leaves the loop: the arbitrary iteration then continues with the code
+        # after the loop (no invariant to re-establish).  Only supported when the body has no nested loop.
+        body_cut = body
+        has_break = re.search(r"\bbreak\b", body) is not None
+        if has_break:
+            if re.search(r"\b(for|while|loop)\b", body):
+                raise AnchorLost(f"{spec['id']}: `break` in a loop body with nested loops is not supported")
+            body_cut = re.sub(r"\bbreak\b(\s*;)?", "{ __brk = true; break; }", body)
         new = (
             "{ let __set: BitBoard = " + it + ";\n"
             "#[cfg(kani)] let __cut = " + hook + "::active();\n"
@@ -263,8 +271,9 @@ def cut_loops_in_fn(src, fname, specs):
             "    if !__rem.is_empty() {\n"
             "        let __x: Square = __rem.next_square().unwrap();\n"
             "        let mut __once = true;\n"
-            "        while __once { __once = false; let " + pat + " = __x; {" + body + "} }\n"
-            "        " + hook + "::step(__set, __rem, __x" + ctx_sep + mods_sep + ");\n"
+            "        #[allow(unused_mut, unused_assignments)] let mut __brk = false;\n"
+            "        while __once { __once = false; let " + pat + " = __x; {" + body_cut + "} }\n"
+            "        if !__brk { " + hook + "::step(__set, __rem, __x" + ctx_sep + mods_sep + "); }\n"
             "    }\n"
             "}\n"
             "} else { for " + pat + " in __set {" + body + "} }\n"
@@ -347,6 +356,30 @@ def make_scratch(prefix="verif-scratch-", log=None, cut=True, repo=None):
             src = open(path).read()
             open(path, "w").write('#![cfg_attr(kani, recursion_limit = "1024")]\n' + src)
             lines.append(f"E5 recursion_limit (kani only): {f}")
+        # E6: read-only accessor for the private Zobrist key table, compiled only with `--cfg verif_dump`
+        # (used by /verif/native to dump the real keys for the verified independence checker, C11)
+        zf = os.path.join(d, "cozy-chess/src/board/zobrist.rs")
+        bf = os.path.join(d, "cozy-chess/src/board/mod.rs")
+        if not (os.path.exists(zf) and os.path.exists(bf)):
+            raise AnchorLost("E6: zobrist.rs / board/mod.rs missing")
+        with open(zf, "a") as fh:
+            fh.write("""
+/// (verification only) every entry of the Zobrist key table, each exactly once
+#[cfg(verif_dump)]
+pub fn verif_dump_keys() -> ([u64; 2 * 6 * 64 + 2 * 8 + 8 + 1], usize) {
+    let z = &ZOBRIST;
+    let mut out = [0u64; 2 * 6 * 64 + 2 * 8 + 8 + 1];
+    let mut n = 0;
+    for c in 0..Color::NUM { for p in 0..Piece::NUM { for s in 0..Square::NUM { out[n] = z.color[c].pieces[p][s]; n += 1; } } }
+    for c in 0..Color::NUM { for f in 0..File::NUM { out[n] = z.color[c].castle_rights[f]; n += 1; } }
+    for f in 0..File::NUM { out[n] = z.en_passant[f]; n += 1; }
+    out[n] = z.black_to_move; n += 1;
+    (out, n)
+}
+""")
+        with open(bf, "a") as fh:
+            fh.write("\n#[cfg(verif_dump)] pub use zobrist::verif_dump_keys;\n")
+        lines.append("E6 key-table accessor behind cfg(verif_dump): cozy-chess/src/board/zobrist.rs, board/mod.rs")
         # E1
         for f, name, harness in INJECT:
             path = os.path.join(d, f)
